@@ -422,7 +422,7 @@ func (b *nfBuilder) Sites(call *ssa.Call) [][]*nf {
 // CondsAt: the dominating branch conditions of an instruction as (normal form, truth) strings.
 func (b *nfBuilder) CondsAt(in ssa.Instruction) map[string]bool {
 	out := map[string]bool{}
-	for _, cd := range DomConds(in.Block()) {
+	for _, cd := range ExpandConds(DomConds(in.Block())) {
 		n := b.Of(cd.V)
 		t := cd.Truth
 		for n.op == "un" && n.name == "!" {
